@@ -11,6 +11,8 @@ MIRRORED = [
     (EX, "_expand_match_element"),
     (EX, "_expand_await_element"),
     (EX, "_expand_when_stmt_element"),
+    (EX, "_expand_start_element"),
+    (EX, "_expand_while_stmt_element"),
     (EX, "expand_elements"),
     (SM, "slide"),
     (SM, "_advance_head_front"),
